@@ -58,6 +58,22 @@ CLAIMED = {
               "from rich's table (seven integer cells per row)."),
         technique=TECH + ": simulated disk behind cli.open (torn writes, short reads, EOF-read budget) driving the real CLI "
                          "through CliRunner; exhaustive n/index sweep plus seeded files"),
+    "C16": dict(
+        level="exploration", design="4.5",
+        text=("Each run is one freshly forked process executing a seeded history of 2-12 operations over 1-3 generated XTCE "
+              "documents: successful loads in any namespace convention (prefix of any name incl. non-ASCII, default namespace, "
+              "none), comment placement and whitespace style, through str path / Path / file object on a simulated disk / "
+              "load_xml; failing loads injected as faults (malformed XML, file torn at a drawn byte, wrong xtce_ns_prefix, "
+              "dangling parameterRef, unsupported type, disk I/O error mid-document); and uses of earlier definitions between "
+              "loads. Every successful load (and every later use of its result) is compared -- reflective fingerprint of the "
+              "definition plus decode of a fixed probe-packet set -- with the baseline computed in a child forked from the "
+              "pristine process state that loads the canonical rendering as its first and only load."),
+        note=("The history half (process-wide class-level namespace state written by every load) is what the simulator owns; "
+              "the spelling half rides on the same oracle. Documents come from a bounded generated family (<= 4 APID branches, "
+              "two-level inheritance, nested containers, every parameter-type/encoding/calibrator/criteria reader). Both sides "
+              "of the comparison are the library itself, so no decoder is re-implemented."),
+        technique=TECH + ": seeded process histories of loads / failing loads / uses in a fresh fork per run, oracle = "
+                         "load-it-first baseline from a pristine child"),
 }
 
 PENDING = {
